@@ -825,3 +825,13 @@ func shapeOf(inv *Inv, stdin bool, output string, outIsDir bool, nin int) string
 	}
 	return s
 }
+
+// known conditions whose defects were repaired in /repo (K41, K54 = N05, K55 = N02, K56 = N03): their shapes are judged like
+// any other case again, so that a regression is reported as a new violation
+var repairedConditions = map[string]bool{"K41": true, "N05": true, "N02": true, "N03": true}
+
+func clearRepaired(exp *Expect) {
+	if exp != nil && repairedConditions[exp.Known] {
+		exp.Known = ""
+	}
+}
